@@ -42,10 +42,11 @@ func main() { Main("c15", runC15) }
 // ---------- CRL objects ----------
 
 type crlObj struct {
-	Label string               // F1, E1, Z1 ... (for descriptions)
-	Kind  string               // F fresh, E expired, Z zero NextUpdate, W raw bytes that are no CRL, N nil raw
-	Raw   []byte               // Raw of the object handed to Set
-	RL    *x509.RevocationList // the object handed to Set
+	Label  string               // F1, E1, Z1 ... (for descriptions)
+	Kind   string               // F fresh, E expired, Z zero NextUpdate, W raw bytes that are no CRL, N nil raw
+	Raw    []byte               // Raw of the object handed to Set
+	RL     *x509.RevocationList // the object handed to Set
+	parsed *x509.RevocationList // big CRLs: what x509.ParseRevocationList answered (Raw, NextUpdate), never handed out
 }
 
 type entryCopy struct {
@@ -63,6 +64,56 @@ type env struct {
 	crls     map[string]*crlObj
 	nus      []time.Time // every non-zero NextUpdate ever minted
 	urlNames int
+	tab      []string                  // crl_tab: parse facts of the pool
+	lazy     map[string]func() *crlObj // big CRLs, minted the first time a history needs them
+	absMu    sync.Mutex
+	absCache map[string]string
+}
+
+// ---------- byte strings too big for a Coq case ----------
+
+// bigT: a byte string longer than this never reaches Coq as a literal. It is
+// replaced by a stand-in, consistently everywhere in the case (operations,
+// results, file contents, keys and values of the fact tables):
+//   - a file content that is byte for byte the canonical encoding of an entry
+//     (json.Marshal of the harness' own entry struct, checked here) becomes the
+//     canonical encoding of the stand-ins of its parts, so that the model's
+//     enc_json / dec_canon still see an entry text;
+//   - any other big byte string (the Raw of a CRL, a content that is not
+//     canonical) becomes "<big N bytes sha256 H>".
+//
+// The map is injective unless SHA-256 collides, and the model treats byte
+// strings as opaque apart from the entry text, so equalities between the
+// real byte strings are exactly the equalities between the stand-ins.
+const bigT = 1 << 16
+
+func bigToken(x string) string {
+	h := sha256.Sum256([]byte(x))
+	return fmt.Sprintf("<big %d bytes sha256 %x>", len(x), h)
+}
+
+func (e *env) abs(s string) string {
+	if len(s) <= bigT {
+		return s
+	}
+	e.absMu.Lock()
+	defer e.absMu.Unlock()
+	if a, ok := e.absCache[s]; ok {
+		return a
+	}
+	a := bigToken(s)
+	var ec entryCopy
+	if s[0] == '{' && json.Unmarshal([]byte(s), &ec) == nil && string(canon(ec.BaseCRL, ec.DeltaCRL)) == s {
+		part := func(b []byte) []byte {
+			if len(b) > bigT {
+				return []byte(bigToken(string(b)))
+			}
+			return b
+		}
+		a = string(canon(part(ec.BaseCRL), part(ec.DeltaCRL)))
+	}
+	e.absCache[s] = a
+	return a
 }
 
 func (e *env) mint(label, kind string, next time.Time, delta bool, revoked int) *crlObj {
@@ -72,7 +123,16 @@ func (e *env) mint(label, kind string, next time.Time, delta bool, revoked int) 
 		tpl.NextUpdate = next
 		tpl.ThisUpdate = next.Add(-240 * time.Hour)
 	}
-	for i := 0; i < revoked; i++ {
+	if revoked > 1000 {
+		// the size ladder: 16-byte serial numbers, 35 bytes of DER per entry
+		hi := new(big.Int).Lsh(big.NewInt(0x5a5a5a5a00+e.serial), 88)
+		tpl.RevokedCertificateEntries = make([]x509.RevocationListEntry, revoked)
+		for i := range tpl.RevokedCertificateEntries {
+			tpl.RevokedCertificateEntries[i] = x509.RevocationListEntry{SerialNumber: new(big.Int).Add(hi, big.NewInt(int64(i))),
+				RevocationTime: e.t0.Add(-time.Duration(i%1000+1) * time.Hour)}
+		}
+	}
+	for i := 0; i < revoked && revoked <= 1000; i++ {
 		tpl.RevokedCertificateEntries = append(tpl.RevokedCertificateEntries,
 			x509.RevocationListEntry{SerialNumber: big.NewInt(int64(1000 + i)), RevocationTime: e.t0.Add(-time.Duration(i+1) * time.Hour)})
 	}
@@ -91,7 +151,31 @@ func (e *env) mint(label, kind string, next time.Time, delta bool, revoked int) 
 	if !rl.NextUpdate.IsZero() {
 		e.nus = append(e.nus, rl.NextUpdate)
 	}
-	return &crlObj{Label: label, Kind: kind, Raw: rl.Raw, RL: rl}
+	c := &crlObj{Label: label, Kind: kind, Raw: rl.Raw, RL: rl}
+	if len(rl.Raw) > bigT {
+		c.parsed = &x509.RevocationList{Raw: cloneBytes(rl.Raw), NextUpdate: rl.NextUpdate}
+	}
+	return c
+}
+
+// add puts a CRL into the pool: a Coq name for its Raw (the stand-in for a big
+// one) and, unless it is no CRL, its parse fact in crl_tab.
+func (e *env) add(c *crlObj) *crlObj {
+	e.crls[c.Label] = c
+	S := func(s string) string {
+		s = e.abs(s)
+		if n, ok := e.pool[s]; ok {
+			return n
+		}
+		return cstr(s)
+	}
+	if c.Kind != "N" {
+		e.define("crl_"+c.Label, e.abs(string(c.Raw)))
+	}
+	if c.Kind != "W" && c.Kind != "N" {
+		e.tab = append(e.tab, CPair("crl_"+c.Label, e.parseFact(c.Raw, S)))
+	}
+	return c
 }
 
 func (e *env) define(name string, s string) {
@@ -106,7 +190,18 @@ func (e *env) ms(t time.Time) int64 { return t.UnixMilli() - e.t0.UnixMilli() }
 
 // parseFact asks crypto/x509 about some bytes; S prints a byte string.
 func (e *env) parseFact(b []byte, S func(string) string) string {
-	rl, err := x509.ParseRevocationList(b)
+	var rl *x509.RevocationList
+	var err error
+	if len(b) > bigT {
+		for _, c := range e.crls {
+			if c.parsed != nil && len(c.Raw) == len(b) && string(c.Raw) == string(b) {
+				rl = c.parsed
+			}
+		}
+	}
+	if rl == nil {
+		rl, err = x509.ParseRevocationList(b)
+	}
 	if err != nil {
 		return "PErr"
 	}
@@ -218,6 +313,20 @@ func safeSet(c *crl.FileCache, ctx context.Context, u string, b *corecrl.Bundle)
 func snapRL(rl *x509.RevocationList) string {
 	if rl == nil {
 		return "nil"
+	}
+	if len(rl.Raw) > bigT {
+		// the size ladder: Raw, Signature and TBS by digest, the rest by value
+		h := sha256.New()
+		h.Write(rl.Raw)
+		h.Write(rl.Signature)
+		h.Write(rl.RawTBSRevocationList)
+		n := len(rl.RevokedCertificateEntries)
+		var first, last string
+		if n > 0 {
+			first = fmt.Sprint(rl.RevokedCertificateEntries[0].SerialNumber, rl.RevokedCertificateEntries[0].RevocationTime.Unix())
+			last = fmt.Sprint(rl.RevokedCertificateEntries[n-1].SerialNumber, rl.RevokedCertificateEntries[n-1].RevocationTime.Unix())
+		}
+		return fmt.Sprintf("%p:%d:%x:%v:%v:%v:%d:%s:%s", rl, len(rl.Raw), h.Sum(nil)[:8], rl.Number, rl.NextUpdate.UnixNano(), rl.ThisUpdate.UnixNano(), n, first, last)
 	}
 	j, err := json.Marshal(rl)
 	if err != nil {
@@ -722,10 +831,11 @@ func (e *env) execute(id int64, sb string, hc *hcase) string {
 // binding long strings that occur more than once in the case with a let.
 func (e *env) emit(build func(S func(string) string) string) string {
 	cnt := map[string]int{}
-	build(func(s string) string { cnt[s]++; return "" })
+	build(func(s string) string { cnt[e.abs(s)]++; return "" })
 	names := map[string]string{}
 	var lets []string
 	term := build(func(s string) string {
+		s = e.abs(s)
 		if n, ok := e.pool[s]; ok {
 			return n
 		}
@@ -748,7 +858,7 @@ func (e *env) emit(build func(S func(string) string) string) string {
 
 func (e *env) crlPoolFact(b string) (string, bool) {
 	for _, c := range e.crls {
-		if string(c.Raw) == b && c.Kind != "W" && c.Kind != "N" {
+		if len(c.Raw) == len(b) && string(c.Raw) == b && c.Kind != "W" && c.Kind != "N" {
 			return c.Label, true
 		}
 	}
@@ -757,7 +867,7 @@ func (e *env) crlPoolFact(b string) (string, bool) {
 
 func (e *env) label(b []byte) string {
 	for _, c := range e.crls {
-		if string(c.Raw) == string(b) {
+		if len(c.Raw) == len(b) && string(c.Raw) == string(b) {
 			return c.Label
 		}
 	}
@@ -770,14 +880,15 @@ func (e *env) label(b []byte) string {
 func runC15(a *Args) error {
 	rng := NewRng(a.Seed)
 	w := NewCaseWriter(a, "C15", "", "case", "run")
-	w.Rule = "histories of FileCache.Set / Get and environment operations (corrupt, remove, directory in the way) on a fresh cache directory, run on the real verifier/crl.FileCache; families: expiry matrix (base x delta in fresh / expired / zero NextUpdate / not a CRL / nil), isolation scripts over all pairs of near-identical urls, hostile urls (traversal, empty, the file name of another url, 5 kB) with decoy entries planted outside the root, ~70 kinds of corruption of a stored entry (truncation at every length class, bit flips, swapped fields, foreign JSON, wrong types, bad base64, damaged DER), duplicate JSON members with the odd one first / middle / last and rarely used legal JSON syntax (escaped keys and characters, case-folded keys, CR LF inside base64, pretty printing), nil bundles and directories in the way, overwrite of every ordered pair of stored bundles (same length, older/newer, with/without delta), scripts on ONE long-lived FileCache object and on TWO objects sharing the root whose expected answer changes between calls (A then B, miss then hit, hit then miss, fail then pass), random histories (half of them spread over the two objects) of 3..12 operations followed by a sweep of Gets, and entries that expire while the history runs (real clock), and the freshness matrix repeated over parts of about 0.2 / 0.5 / 5 kB (fresh, expired, zero NextUpdate at every size, base and delta independently). non-trivial = some Get addresses a url that was stored or corrupted earlier in the history, or the history touches a hostile url; distinct = distinct (family, urls, operations, CRL kinds, corruption, results) sequences"
+	w.Rule = "histories of FileCache.Set / Get and environment operations (corrupt, remove, directory in the way) on a fresh cache directory, run on the real verifier/crl.FileCache; families: expiry matrix (base x delta in fresh / expired / zero NextUpdate / not a CRL / nil), isolation scripts over all pairs of near-identical urls, hostile urls (traversal, empty, the file name of another url, 5 kB) with decoy entries planted outside the root, ~70 kinds of corruption of a stored entry (truncation at every length class, bit flips, swapped fields, foreign JSON, wrong types, bad base64, damaged DER), duplicate JSON members with the odd one first / middle / last and rarely used legal JSON syntax (escaped keys and characters, case-folded keys, CR LF inside base64, pretty printing), nil bundles and directories in the way, overwrite of every ordered pair of stored bundles (same length, older/newer, with/without delta), scripts on ONE long-lived FileCache object and on TWO objects sharing the root whose expected answer changes between calls (A then B, miss then hit, hit then miss, fail then pass), random histories (half of them spread over the two objects) of 3..12 operations followed by a sweep of Gets, and entries that expire while the history runs (real clock), and the freshness matrix repeated over parts of about 0.2 / 0.5 / 5 kB (fresh, expired, zero NextUpdate at every size, base and delta independently), and a size ladder of Set / Get round trips (two urls, two objects, overwrite by a small bundle) with bundles as large as the library may fetch: raw DER of 1 and 8 MiB and an expired 8 MiB delta in the quick tier, 20 / 26 / 31 MiB bases and 14 MiB base + 14 MiB delta in the thorough tier (35 bytes per revoked entry, up to 930 000 entries). non-trivial = some Get addresses a url that was stored or corrupted earlier in the history, or the history touches a hostile url; distinct = distinct (family, urls, operations, CRL kinds, corruption, results) sequences"
 	w.Assumptions = []string{
 		"crypto/sha256 has no collision among the urls of a history (checked per case inside Coq: wf)",
 		"encoding/json + encoding/base64 decode what they encoded (checked per Set inside Coq: wf); x509.ParseRevocationList is an oracle giving (Raw, NextUpdate) | error for every byte string met (it ignores bytes after the first DER element, so Raw may be a proper prefix of a stored part)",
 		"the cache directory is writable and the process can read its files (no I/O errors other than a directory sitting at an entry's name)",
 		"no NextUpdate lies within 3 ms of a Get (the driver repeats the Get otherwise); the boundary now = NextUpdate is not explored",
+		"a byte string of more than 64 KiB is given to Coq as a stand-in: \"<big N bytes sha256 H>\", and a file content that is byte for byte the canonical entry text (checked Go-side against json.Marshal of the harness' own entry struct) as the canonical entry text over the stand-ins of its parts; injective unless SHA-256 collides, applied consistently to operations, results, file contents and fact tables",
 	}
-	e := &env{t0: time.Now().Truncate(time.Second), pool: map[string]string{}, crls: map[string]*crlObj{}}
+	e := &env{t0: time.Now().Truncate(time.Second), pool: map[string]string{}, crls: map[string]*crlObj{}, lazy: map[string]func() *crlObj{}, absCache: map[string]string{}}
 	pub, priv, err := ed25519.GenerateKey(rand.Reader)
 	_ = pub
 	if err != nil {
@@ -789,22 +900,7 @@ func runC15(a *Args) error {
 
 	// --- CRL pool ---
 	h := time.Hour
-	var tab []string
-	add := func(c *crlObj) *crlObj {
-		e.crls[c.Label] = c
-		if c.Kind != "N" {
-			e.define("crl_"+c.Label, string(c.Raw))
-		}
-		if c.Kind != "W" && c.Kind != "N" {
-			tab = append(tab, CPair("crl_"+c.Label, e.parseFact(c.Raw, func(s string) string {
-				if n, ok := e.pool[s]; ok {
-					return n
-				}
-				return cstr(s)
-			})))
-		}
-		return c
-	}
+	add := e.add
 	add(e.mint("F1", "F", e.t0.Add(1*h), false, 0))
 	add(e.mint("F2", "F", e.t0.Add(24*h), false, 1))
 	add(e.mint("F3", "F", e.t0.Add(30*24*h), false, 0))
@@ -834,6 +930,20 @@ func runC15(a *Args) error {
 	add(&crlObj{Label: "N2", Kind: "N", Raw: []byte{}, RL: &x509.RevocationList{Raw: []byte{}}})
 	// a valid DER with one trailing byte: refused by the parser
 	add(&crlObj{Label: "W2", Kind: "W", Raw: append(append([]byte{}, e.crls["F1"].Raw...), 0), RL: &x509.RevocationList{Raw: append(append([]byte{}, e.crls["F1"].Raw...), 0)}})
+
+	// the size ladder (family I): minted only when a history of the run uses them
+	for _, L := range []struct {
+		label, kind string
+		next        time.Duration
+		delta       bool
+		mib         int
+	}{{"L1", "F", 72 * h, false, 1}, {"L8", "F", 72 * h, false, 8}, {"EL8D", "E", -5 * h, true, 8}, {"L20", "F", 72 * h, false, 20},
+		{"L26", "F", 72 * h, false, 26}, {"L31", "F", 72 * h, false, 31}, {"L14", "F", 72 * h, false, 14}, {"LD14", "F", 48 * h, true, 14}} {
+		L := L
+		e.lazy[L.label] = func() *crlObj {
+			return e.add(e.mint(L.label, L.kind, e.t0.Add(L.next), L.delta, L.mib*(1<<20)/35-20))
+		}
+	}
 
 	// --- url pool ---
 	u0 := "http://crl.example.com/ca.crl"
@@ -885,6 +995,16 @@ func runC15(a *Args) error {
 		term := e.execute(my, sb, hc)
 		g.account(w, my, term, hc)
 	}
+	emitLazy := func(mk func() *hcase) {
+		my := id
+		id++
+		if !w.Want(my) {
+			return
+		}
+		hc := mk()
+		term := e.execute(my, sb, hc)
+		g.account(w, my, term, hc)
+	}
 	type slow struct {
 		id   int64
 		mk   func(r *Rng) *hcase
@@ -901,7 +1021,7 @@ func runC15(a *Args) error {
 			return
 		}
 		deferred = append(deferred, &slow{id: my, mk: mk, r: rng.Fork(uint64(my))})
-	})
+	}, emitLazy)
 	if len(deferred) > 0 {
 		// CRLs that expire while the histories run, minted now
 		now := time.Now().Truncate(time.Second)
@@ -920,7 +1040,7 @@ func runC15(a *Args) error {
 			g.account(w, s.id, s.term, s.hc)
 		}
 	}
-	fmt.Fprintf(&e.prelude, "Definition crl_tab : list (string * crlfact) := %s.\n", CList(tab))
+	fmt.Fprintf(&e.prelude, "Definition crl_tab : list (string * crlfact) := %s.\n", CList(e.tab))
 	w.Prelude = "From NV Require Import Base C15_Model.\nOpen Scope string_scope.\n" + e.prelude.String()
 	return w.Close()
 }
